@@ -288,6 +288,10 @@ func workerMain(args []string) {
 				buf := make([]byte, 1<<16)
 				buf = buf[:runtime.Stack(buf, true)]
 				fmt.Fprintf(os.Stderr, "VERIF-WATCHDOG: no progress for %d s: the case blocks for ever\n%s\n", limit, buf)
+				// the complete goroutine dump goes to a file (the violation detail is cut short)
+				dir := filepath.Join(verifDir(), "replays", prop)
+				os.MkdirAll(dir, 0o755)
+				os.WriteFile(filepath.Join(dir, fmt.Sprintf("watchdog-shard%d.txt", shard)), buf, 0o644)
 				os.Exit(3)
 			}
 		}
